@@ -25,6 +25,18 @@ def cases(tier, rng, dist):
         for nc in range(1, 3):
             for cells in itertools.product(range(2), repeat=5 * nc):
                 yield {"x": [list(cells[i * nc:(i + 1) * nc]) for i in range(5)]}
+    # tens of thousands of rows, wide rows
+    for nr, nc, alpha in ((70001, 2, 40), (1025, 9, 2), (300, 33, 1)) if tier == "quick" else ((70001, 2, 40), (1025, 9, 2), (300, 33, 1), (140001, 1, 5000), (4099, 3, 3)):
+        yield {"x": [[0]], "gen": [nr, nc, alpha, rng.randint(0, 10**6)], "layout": rng.choice([0, 1, 3])}
+    # wide rows (more columns than any key limit of 32 / 64) whose copies are separated by rows that differ in ONE column only
+    for nc in ((33, 40, 70) if tier == "quick" else (33, 34, 40, 65, 70, 129)):
+        for _ in range(4):
+            base = [[rng.randint(0, 1) for _ in range(nc)] for _ in range(2)]
+            pool = list(base)
+            for b in base:
+                for pos in (0, nc // 2, nc - 1):
+                    v = list(b); v[pos] += 1; pool.append(v)
+            yield {"x": [list(rng.choice(pool)) for _ in range(rng.randint(3, 12))]}
     n = 600 if tier == "quick" else 6000
     big = [2**63 - 1, -2**63, 2**62, -2**62, 0, 1, -1]
     for _ in range(n):
@@ -45,7 +57,16 @@ def cases(tier, rng, dist):
         yield {"x": x}
 
 
+def rows_of(c):
+    if "gen" in c:
+        nr, nc, alpha, sd = c["gen"]
+        return np.random.RandomState(sd).randint(0, alpha + 1, size=(nr, nc)).tolist()
+    return c["x"]
+
+
 def run(c):
+    if "gen" in c:
+        c = dict(c); c["x"] = rows_of(c)
     x = interned(np.array(c["x"], dtype=np.int64))
     # memory layout of the caller's array (values identical): C order, Fortran order, a transposed view, every second
     # row of a larger buffer, int32 / int16 dtypes -- chosen from the content so that replays are exact
@@ -78,7 +99,7 @@ def run(c):
 
 
 def oracle(c, o):
-    x = [tuple(r) for r in c["x"]]
+    x = [tuple(r) for r in rows_of(c)]
     if not o["unmodified"]:
         return {"why": "input array modified", "cls": "qa:input-modified"}
     if o.get("aliased"):
@@ -105,6 +126,8 @@ def rows(l):
 
 
 def to_coq(c, o):
+    if "gen" in c:
+        return None
     return "Case %s %s %s %s %s" % (
         rows(c["x"]),
         rows(o["dups"][1]) if o["dups"][0] == "ok" else "[[999]]",
@@ -119,4 +142,4 @@ def nontrivial(c, o):
 
 
 def key(c):
-    return json.dumps(c["x"])
+    return json.dumps([c["x"], c.get("gen")])
